@@ -10,7 +10,7 @@ import fs from "node:fs";
 import path from "node:path";
 import os from "node:os";
 import { pathToFileURL } from "node:url";
-import { genSplitProject } from "./split.mjs";
+import { genSplitProject, genWatch } from "./split.mjs";
 
 // ---------- TsCore -> TypeScript text ----------
 const IDENT = /^[A-Za-z_$][A-Za-z0-9_$]*$/;
@@ -400,6 +400,13 @@ let counter = 0;
 export function gen(rng, params, mode) {
   if (mode === "prog-total") return genTotal(rng, params);
   if (mode === "prog-rewrite") return genRewrite(rng, params);
+  if (mode === "prog-watch") {
+    let p = genProg(rng);
+    for (let i = 0; i < 3 && p[1].length < 2; i++) p = genProg(rng);
+    if (p[1].length) p = [p[0], p[1], [...p[2], ["EX", [A("obj"), p[1].map((d, i) => ["d" + i, A("false"), [A("ref"), d[1], ...d[2].map(() => A("string"))]]), A("none")]]]];
+    const [files, ops] = genWatch(rng, p);
+    return [A("watch"), A(String(counter++)), files, ops];
+  }
   if (mode === "prog-split") {
     // (split id p files1 values proj filesN expect break-kind)
     let p = genProg(rng);
